@@ -16,7 +16,7 @@ import z3
 import e2
 from common import Report, build_native
 from mir_exec import Agg, SBool, SInt, SymOpt, field_of, load_program, mk_int
-from mir_models import deref, none, some, to_symopt, z_and, z_not, z_or
+from mir_models import as_str, deref, none, some, to_symopt, z_and, z_not, z_or
 from props import execmodel as X
 
 NAT = None
@@ -198,7 +198,23 @@ def post_unknown(ctx, args, kind, value):
     return all(field_of(o, "exit_code").variant == "Unknown" for o in outs[k:])
 
 
-POSTS = {"C14": post_timeout, "C15": post_skip, "C05": post_unknown}
+def post_env(ctx, args, kind, value):
+    """C18: every test case handed to the runner carries SCRUT_TEST=<document path>:<its line number>, set afresh per test case"""
+    if kind != "return":
+        return False
+    tcs = args[0]
+    for i, run in enumerate(ctx.notes.get("runs", [])):
+        want = "file.md:%d" % field_of(tcs[i], "line_number").v
+        got = None
+        for k, v in run["env"].entries:
+            if "".join(chr(c.v) for c in as_str(k).chars) == "SCRUT_TEST":
+                got = "".join(chr(c.v) for c in as_str(v).chars)
+        if got != want:
+            return False
+    return True
+
+
+POSTS = {"C14": post_timeout, "C15": post_skip, "C05": post_unknown, "C18": post_env}
 
 
 def witness(model, r):
@@ -256,6 +272,11 @@ def judge_native(pid, w, nv):
         if got != want:
             return ("skip:%s" % ("missed" if got is None else "spurious" if want is None else "wrong-index"),
                     "skip code: expected %s, executor returned %s for %s" % ("Skipped(%d)" % want if want is not None else "no skip", res, w))
+        return None
+    if pid == "C18":
+        for i, run in enumerate(runs):
+            if run.get("scrut_test") != "file.md:%d" % (i + 1):
+                return ("env:SCRUT_TEST", "test case %d ran with SCRUT_TEST=%r, expected 'file.md:%d'" % (i, run.get("scrut_test"), i + 1))
         return None
     if pid == "C05":
         if "Unknown" in kinds:
@@ -320,7 +341,7 @@ def run_claims(pid, rep, prog, tier):
     for n in range(1, n_max + 1):
         for kinds in scripts(n):
             inputs.append(("script=%s" % "/".join(kinds), mk_setup(kinds)))
-    h = e2.Harness("executor_%s" % {"C14": "timeouts", "C15": "skip_code", "C05": "unknown_padding"}[pid], drive, inputs, POSTS[pid],
+    h = e2.Harness("executor_%s" % {"C14": "timeouts", "C15": "skip_code", "C05": "unknown_padding", "C18": "scrut_test_variable"}[pid], drive, inputs, POSTS[pid],
                    native="execute_all", judge=None,
                    describe=POSTS[pid].__doc__ + ": see module docstring",
                    bound="documents of 1..%d test cases; every script {Code,Detached}* [Timeout|Skipped|Unknown|runner error]; all exit "
